@@ -35,7 +35,7 @@ Fails closed: any clang failure, unparsable default, guard idiom of unknown shap
 """
 import collections, concurrent.futures, glob, hashlib, heapq, json, os, re, subprocess, sys, time, zlib
 
-VERSION = "cg-17"
+VERSION = "cg-19"
 HERE = os.path.dirname(os.path.abspath(__file__))
 sys.path.insert(0, os.path.dirname(HERE))
 
@@ -64,6 +64,8 @@ ASSUMED = {
     ("recomp_record_fields", "hawk_rtx_setgbl"): "nf-writeback",
     ("hawk_rtx_setrec", "hawk_rtx_setgbl"): "nf-writeback",
     ("hawk_rtx_truncrec", "hawk_rtx_setgbl"): "nf-writeback",
+    ("refdown_elem", "hawk_rtx_refdownval"): "container-defer",
+    ("free_deferred_vals", "hawk_rtx_refdownval"): "container-defer",
     ("hawk_tre_parse", "hawk_tre_parse"): "regex-macro",
     ("tre_stack_push", "tre_stack_push"): "retry-once",
     ("hawk_qsort", "hawk_qsort"): "not-nesting",
@@ -71,10 +73,20 @@ ASSUMED = {
     ("hawk_fnmat_bchars_i", "hawk_fnmat_bchars_i"): "not-nesting",
     ("hawk_fnmat_uchars_i", "hawk_fnmat_uchars_i"): "not-nesting",
 }
+# Functions that walk a parse tree by structural recursion (destructor, deparser).  They cannot fail with a nesting
+# error; their recursion depth is the depth of the tree, which the parser bounds when the parse-time limits are set:
+# every nesting construct is counted (parse_expr_withdc, parse_unary, parse_primary_withdc, parse_block_dc,
+# parse_statement_withdc), and the shapes the parser builds in loops without counting - left-leaning binary chains,
+# else-if ladders, sibling lists - are walked in loops by these functions.  Edges among them get the class
+# `tree-depth`; every call site is pinned (knownResidualSiteIds) so that a recursion added on a new field shows up.
+TREE_WALKERS = {"hawk_clrpt", "print_expr", "print_operand", "print_exp_bin_chain", "print_expr_list",
+                "print_expr_list_for_idx", "print_printx", "print_stmt", "print_stmts", "hawk_prnpt"}
 ASSUMED_REASONS = {
+    "tree-depth": "structural recursion over a parse tree whose depth the parser bounds (expr_parse, block_parse); chains, else-if ladders and lists, which the parser builds in loops, are walked in loops",
     "value-mode-format": "val_flt_to_str calls hawk_rtx_format with nargs_on_stack=(hawk_oow_t)-1: the argument is a value, the branch of hawk_rtx_format that evaluates argument nodes is not taken",
     "reference-chain": "a HAWK_VAL_REF is dereferenced once per by-reference parameter level; a chain of references is at most as long as the (guarded) call depth",
     "nf-writeback": "rec.c writes NF back with the current field count and assign=0: set_global's NF case re-enters rec.c only when the value differs from inrec.nflds",
+    "container-defer": "a map/array found dead while another one is being destroyed is put on rtx->vdefer and destroyed by the loop of the outermost hawk_rtx_freeval() (vdefer.draining stops re-entry: at most two levels); refdown_elem() releases directly only what is not a dying container, or when the list cannot grow (out of memory)",
     "regex-macro": "tre_parse re-enters itself only to parse the fixed expansion of a \\w-style macro, which contains no macro",
     "retry-once": "tre_stack_push calls itself once after growing its buffer",
     "not-nesting": "sorting / glob matching: recursion depth depends on the number of array elements / pattern length, not on program nesting (outside C14)",
@@ -819,7 +831,7 @@ def build_graph(repo, cache=None, jobs=None, log=lambda *a: None):
         if len(c) > 1 or c[0] in succ.get(c[0], ()):
             cyc_nodes |= set(c)
     # classes
-    classes = LIMIT_FIELDS + ["stack"] + sorted(set(ASSUMED.values()))
+    classes = LIMIT_FIELDS + ["stack"] + sorted(set(ASSUMED.values()) | {"tree-depth"})
     assumed_used = set()
     E = []       # (u, v, cls) cls: None plain, else class name
     for (u, v), gs in sorted(edges.items()):
@@ -833,6 +845,8 @@ def build_graph(repo, cache=None, jobs=None, log=lambda *a: None):
             if key in ASSUMED:
                 cls = ASSUMED[key]
                 assumed_used.add(key)
+            elif key[0] in TREE_WALKERS and key[1] in TREE_WALKERS:
+                cls = "tree-depth"
         E.append((u, v, cls))
     nodes = sorted(cyc_nodes)
     succ_p = {}
@@ -900,7 +914,8 @@ def build_graph(repo, cache=None, jobs=None, log=lambda *a: None):
     # call sites of the residual edges, each with a stable id: a recursive call added inside an already known
     # unguarded cycle changes this table although the set of residual groups stays the same
     rsites = []
-    for (u, v) in sorted(residual):
+    watched = set(residual) | set((u, v) for u, v, cls in E if cls == "tree-depth")
+    for (u, v) in sorted(watched):
         cnt = collections.Counter(esites.get((u, v), []))
         for (lab, args), c in sorted(cnt.items()):
             for i in range(1, c + 1):
